@@ -126,3 +126,31 @@ register('C17', world='w2:W2World', quick=1800, thorough=100000, level='explorat
                         "SUB_INTERFACES flags), identical versions must give None, added(old->new) = removed(new->old). "
                         "Non-trivial: >=1 call changed the model.",
          assumptions=W2_ASSUME + ["elements are matched by name (as the library documents); SUB_INTERFACES is judged for SmartNIC components and dedicated ports only (the library's scope)"])
+
+W3_ASSUME = [
+    "aggregate models are built with the raw property-graph interface from a seeded generator (sites with workers, components, switch, ports, facility, uplink; a network aggregate); aggregates share only stitching elements (link + far port), identified by node id",
+    "merge_adm/unmerge_adm/_update_node_delegations are the functions of fim.graph.resources.neo4j_cbm bound unchanged onto a NetworkXPropertyGraph subclass; APOC semantics of a real Neo4j are not exercised",
+    "a broker recognises an already merged advertisement by its id (duplicate delivery is dropped by the harness, as the control framework does) and unmerges an aggregate's previous advertisement before merging a newer one",
+]
+W3_RULE = ("one evaluation = one seeded W3 run: 1-3 site aggregates + one network aggregate, each an aggregate model built "
+           "from a seeded generator and annotated with 1-3 delegation ids (single-resource, pool definition, pool reference; "
+           "nodes with label-only, capacity-only, both or no delegations; stitching elements shared by node id); 4-28 "
+           "scheduler events: partition, re-key, send (partition + serialize), deliver (import, snapshot, merge; optionally an "
+           "exception at the k-th backend call of the merge followed by rollback and re-delivery), duplicate, drop, re-send, "
+           "aggregate offline (unmerge) / back (new advertisement, new id), explicit snapshot / rollback; at the end every "
+           "message still in flight is delivered fault-free within 2 x #messages steps. %s Distinct = distinct event-log digest.")
+register('C13', world='w3:W3World', quick=1500, thorough=60000, level='exploration',
+         rule=W3_RULE % "C13 oracles on every partition produced: one model per delegation id; every node delegated to the id present "
+                        "with exactly its own entries; no entry of another id anywhere; sub-model (ids, all other properties, every "
+                        "original edge between kept nodes and no other edge); each kept interface keeps link, peers, owning service "
+                        "and its owner; all stitching elements present; the aggregate model untouched; re-keying changes only the "
+                        "key. Non-trivial: >=1 partition checked.",
+         assumptions=W3_ASSUME + ["the property is a function of the annotated aggregate model; the simulation contributes the generated models and the place of partitioning inside the federation workflow"])
+register('C14', world='w3:W3World', quick=1500, thorough=60000, level='exploration',
+         rule=W3_RULE % "C14 oracles after every delivered event: combined model = order-free union of the advertisements currently "
+                        "merged (elements once, adm_graph_ids = contributing set, delegations keyed by contributing model id, union "
+                        "of connections, no property no source has); sources untouched; unmerge = expectation without it; rollback "
+                        "= recorded snapshot state; after a failure inside merge, rollback restores the pre-merge model; bounded "
+                        "liveness at quiescence. 75% of runs use agreeing shared elements (unconditional), 25% disagreeing ones "
+                        "(recorded finding). Non-trivial: >=1 merge/unmerge/rollback/partition done.",
+         assumptions=W3_ASSUME)
